@@ -1,3 +1,4 @@
+pub mod alloc;
 pub mod common;
 pub mod props;
 pub mod sim;
